@@ -204,17 +204,24 @@ func (b *mBucket) delete(r *Cache, h *mHead, hash uint32, ns, key uint64) (done,
 	}
 	n := b.nodes[i]
 	var bLen int
+	var delFuncs []func()
 	if n.ns == ns && n.key == key {
 		if atomic.LoadInt32(&n.ref) == 0 {
 			deleted = true
 
-			// Save and clear value.
-			if n.value != nil {
+			// Save and clear value and delete funcs. A forced Cache.Close
+			// may finalize the node concurrently (see callFinalizer), take
+			// them exactly once.
+			n.mu.Lock()
+			value := n.value
+			delFuncs = n.delFuncs
+			n.value, n.delFuncs = nil, nil
+			n.mu.Unlock()
+			if value != nil {
 				// Call releaser.
-				if r, ok := n.value.(util.Releaser); ok {
+				if r, ok := value.(util.Releaser); ok {
 					r.Release()
 				}
-				n.value = nil
 			}
 
 			// Remove node from bucket.
@@ -226,7 +233,7 @@ func (b *mBucket) delete(r *Cache, h *mHead, hash uint32, ns, key uint64) (done,
 
 	if deleted {
 		// Call delete funcs.
-		for _, f := range n.delFuncs {
+		for _, f := range delFuncs {
 			f()
 		}
 
